@@ -158,6 +158,50 @@ def run(F, chk):
             else:
                 rg.ok(key, cb.where(cmpc[0][0]), "returns false on the address-mismatch edge")
     rg.require(n_g >= 1, "no listener lookup predicate comparing addresses found in the builder")
+    # ---------------- R-C20-h --------------------------------------------------
+    # One listener per address, whatever the protocols: ListenerAddressAlreadyInUse is decided by PRESENCE of the address
+    # among the known ones (contains_key / insert(..).is_some() / a Some arm), never by comparing the value stored for it.
+    rh = chk.rule("R-C20-h", "T5", "a second listener on a known address is rejected whatever its protocol", floor=1)
+    for root in (CFG + "ConfigBuilder::populate_listeners",):
+        if not rh.require(F.has(root), "populate_listeners not found"):
+            continue
+        pb = lib.flat(F, F.body(root))
+        rh.fn(root)
+        sites = [(bi, si) for bi, si, st in pb.stmts() if st.get("rv", {}).get("k") == "agg" and st["rv"].get("var") == "ListenerAddressAlreadyInUse"]
+        if not rh.require(sites, "populate_listeners: no ListenerAddressAlreadyInUse site"):
+            continue
+        def presence(sb, truth, atom):
+            if atom[0] != "call":
+                return False
+            nm = atom[1].rsplit("::", 1)[-1]
+            fl = set()
+            cs = set()
+            for a_ in atom[2]["args"]:
+                sl_ = guards.slice_of_operand(pb, a_)
+                fl |= {f for _, f in sl_["fields"]}; cs |= sl_["callees"]
+            if "known_addresses" not in fl:
+                return False
+            if nm == "contains_key":
+                return truth is True
+            if nm == "is_some":
+                return truth is True
+            if nm == "is_none":
+                return truth is False
+            return False
+        edges = lib.edges_where(pb, presence)
+        # `if let Some(_) = map.insert(..)` / `match map.get(..) { Some(_) => Err }`: discriminant switch on the lookup result
+        for bi_, t_ in pb.calls():
+            if callee_of(t_).rsplit("::", 1)[-1] in ("insert", "get", "entry", "get_mut") and isinstance(t_.get("dest"), int) and \
+                    any(f == "known_addresses" for a_ in t_["args"][:1] for _, f in guards.slice_of_operand(pb, a_)["fields"]):
+                import C17
+                for sb, tg, el in C17.discr_switches(pb, t_["dest"]):
+                    edges.append((sb, tg.get(1, el)))
+        for i, (bi, si) in enumerate(sites):
+            key = "%s|duplicate address#%d decided by presence" % (root, i)
+            if edges and lib.guarded_by(pb, bi, edges):
+                rh.ok(key, pb.where(bi, si), "behind a presence test of the address in known_addresses")
+            else:
+                rh.violation(key, pb.where(bi, si), "ListenerAddressAlreadyInUse is not decided by the mere presence of the address (e.g. it compares the protocol stored for it): two listeners with different protocols on one address are accepted at load time and collide when the workers bind")
     # ---------------- R-C20-e --------------------------------------------------
     re_ = chk.rule("R-C20-e", "T7", "generate_config_messages covers every collection of Config", floor=8)
     gm = CFG + "Config::generate_config_messages"
